@@ -42,11 +42,21 @@ def task(t):
     names = names_for(n, env.SEED)
     U = Universe(names + ('_e', '_g'))
     ords = sweep.orders(names)
+    soi, hist = sweep.split_oi(soi)
     sorder, torder = ords[soi], ords[toi]
-    src = S.new_autoref(sorder)
     masks = U.all_functions(names)
-    refs, b = sweep.build_all(src, U, masks, hold=False)
-    fn = {f: src._add_int(r) for f, r in refs.items()}
+    if hist:
+        # a source manager with a history (numbers re-used / nodes rewritten in place)
+        try:
+            src, fn = sweep.make_history(hist, sorder, U, masks, auto=True)
+        except Violation as v:
+            rec('context:' + v.what, v.what, dict(task=t))
+            return rep
+        refs = {f: h.node for f, h in fn.items()}
+    else:
+        src = S.new_autoref(sorder)
+        refs, b = sweep.build_all(src, U, masks, hold=False)
+        fn = {f: src._add_int(r) for f, r in refs.items()}
     sraw = src._bdd
     tgt, held = _target(tkind, torder, U, names)
     traw = tgt._bdd
@@ -255,6 +265,9 @@ def plan(tier):
             ts.append(('w', 12, 3, tperm, si, 8, None))
         for si in range(4):
             ts.append(('w', sweep.XWIDE, 5, tperm, si, 4, None))
+    for k, (soi, toi) in enumerate(((0, 4), (3, 1), (5, 5), (2, 0), (1, 3), (4, 2))):
+        ts.append(('c', 3, '%d:%s' % (soi, ('K1', 'K2', 'rev')[k % 3]), toi,
+                   TARGETS[k % len(TARGETS)], 0, 1, None))
     if tier == 'quick':
         for soi in range(6):
             for toi in range(6):
